@@ -17,7 +17,7 @@
 (* smearing is the mean over n copies centred at P_i + k (P_{i+1} - P_i)/n.  *)
 (* All values are numerators over the fixed denominator Den(c).              *)
 (***************************************************************************)
-EXTENDS Integers, Sequences, FiniteSets, TLC, Json
+EXTENDS Integers, Sequences, FiniteSets, TLC, Json, InjectionMath
 
 CONSTANTS Family,      \* which sub-space Init enumerates: "forms" | "ranges" | "paths" | "pick" (random cross product)
           MaxInj,      \* injections per behaviour (C06 superposition)
@@ -31,62 +31,6 @@ VARIABLES cfgs,        \* sequence of the signal configurations injected so far
           hist
 
 vars == <<cfgs, prior, geo, stage, cur, hist>>
-
-FQ == 24
-TQ == 6
-Abs(x) == IF x < 0 THEN -x ELSE x
-Max2(a, b) == IF a > b THEN a ELSE b
-Min2(a, b) == IF a < b THEN a ELSE b
-
-SumTo(g(_), n) == LET S[k \in 0..n] == IF k = 0 THEN 0 ELSE S[k - 1] + g(k - 1) IN S[n]      \* sum of g(0..n-1)
-
-TP(tau) == 2 + (tau % 3)
-P(c, tau) == c.p0 + c.slope * tau + c.curv * tau * tau
-BP(c, f) == IF c.bpForm = "none" THEN 1 ELSE IF c.bpForm = "scalar" THEN 3 ELSE 1 + ((f \div 6) % 2)
-
-TSub(c) == c.tsub
-NS(c) == IF c.smear = 0 THEN 1 ELSE c.smear
-FS(c) == IF c.iF THEN c.fsub ELSE 1
-CD(c) == TSub(c) * NS(c)                                  \* denominator of signal centres
-
-(* path value of row i (rows 0..T; row T only used for smearing), numerator over TSub *)
-PathNum(c, i) ==
-    IF c.pathForm = "scalar" THEN TSub(c) * c.p0
-    ELSE IF c.pathForm \in {"arr", "arrExt"} THEN TSub(c) * P(c, i * TQ)        \* arrays are used as given
-    ELSE IF c.iP THEN LET g(k) == P(c, i * TQ + k * (TQ \div TSub(c))) IN SumTo(g, TSub(c))
-    ELSE TSub(c) * P(c, i * TQ)
-(* time profile of row i, numerator over TSub *)
-TNum(c, i) ==
-    IF c.tForm = "scalar" THEN TSub(c) * 5
-    ELSE IF c.tForm = "arr" THEN TSub(c) * TP(i * TQ)
-    ELSE IF c.iT THEN LET g(k) == TP(i * TQ + k * (TQ \div TSub(c))) IN SumTo(g, TSub(c))
-    ELSE TSub(c) * TP(i * TQ)
-(* centre of copy k of row i, numerator over CD *)
-Centre(c, i, k) == IF c.smear = 0 THEN PathNum(c, i)
-                   ELSE PathNum(c, i) * NS(c) + k * (PathNum(c, i + 1) - PathNum(c, i))
-(* triangle profile at frequency f (units u) for a centre cn / CD, numerator over CD *)
-FPn(c, f, cn) == Max2(0, c.wd * CD(c) - Abs(f * CD(c) - cn))
-(* pixel (i, j): numerator over Den(c) *)
-Pix(c, i, j) ==
-    LET perK(k) == LET perM(m) == LET f == j * FQ + m * (FQ \div FS(c)) IN FPn(c, f, Centre(c, i, k)) * BP(c, f)
-                   IN SumTo(perM, FS(c))
-    IN  TNum(c, i) * SumTo(perK, NS(c))
-Den(c) == TSub(c) * CD(c) * NS(c) * FS(c)
-
-(* bounding range given as channel indices [b0, b1) before clipping; "none" = whole band *)
-Lo(c, F) == IF c.bnd = <<>> THEN 0 ELSE Min2(Max2(c.bnd[1], 0), F)
-Hi(c, F) == IF c.bnd = <<>> THEN F ELSE Max2(Min2(Max2(c.bnd[2], 0), F), Lo(c, F))
-
-(* outcome of one injection *)
-Status(c) ==
-    IF c.tForm = "bad" \/ c.pathForm = "bad" \/ c.bpForm = "bad" THEN "TypeError"
-    ELSE IF c.tForm = "badlen" \/ c.pathForm = "badlen" \/ c.bpForm = "badlen" THEN "ValueError"
-    ELSE IF c.pathForm = "arrExt" /\ c.smear = 0 THEN "ValueError"     \* T+1 values are only meaningful for smearing
-    ELSE IF c.pathForm = "arr" /\ c.smear # 0 THEN "ValueError"        \* smearing needs the T+1-th value
-    ELSE "ok"
-
-Returned(c, g) == [i \in 1..g.T |-> [j \in 1..g.F |->
-                      IF Status(c) = "ok" /\ j - 1 >= Lo(c, g.F) /\ j - 1 < Hi(c, g.F) THEN Pix(c, i - 1, j - 1) ELSE 0]]
 
 -----------------------------------------------------------------------------
 (* configuration space *)
